@@ -514,7 +514,11 @@ def run(ctx) -> None:
     ok = bool(pc) and len(pc[0].args) >= 2 and source.src(pc[0].args[1]) == "self._concrete"
     ctx.ob("C07.R6-patch-before-store", pc[0] if pc else init, ok, "the variables are patched into the description that is then copied" if ok else
            "_patch_in_variable_files is applied to something other than self._concrete")
-    from checks.c04 import check_user_layer_every_platform
+    from checks.c04 import check_user_layer_every_platform, check_layers_unconditional, option_layer_names
+    gcc_ = fl.func("FlowIRConcrete.get_component_configuration")
+    ctx.analysed(gcc_)
+    seq_name, layer_names = option_layer_names(gcc_)
+    check_layers_unconditional(ctx, gcc_, seq_name, layer_names, "C07.R7-flattening-keeps-scope-precedence")
     pvf = conf.func(CLS + "_patch_in_variable_files")
     ctx.analysed(pvf)
     check_user_layer_every_platform(ctx, pvf, "C07.R6-patch-before-store")
